@@ -491,6 +491,12 @@ fn harnesses(tier: Tier) -> Vec<Harness> {
     v.push(hi("premarked-word-reset-range-vs-mark", vec![10], vec![vec![ResetRange(10, 1)], vec![SetBit(12)]], None));
     v.push(hi("premarked-word-reset-bit-vs-mark", vec![10], vec![vec![ResetBit(10)], vec![SetRange(12, 1)]], None));
     v.push(hi("premarked-two-words-harvest-vs-guest-write", vec![1, 65], vec![vec![Harvest], vec![RegionWrite(63, 2)]], None));
+    // a range whose end pages are already dirty (from other threads, or from before) while its
+    // interior is not: every page of the range has to end up marked
+    v.push(hi("premarked-ends-range-mark-vs-harvest", vec![60, 66], vec![vec![SetRange(60, 7)], vec![Harvest]], None));
+    v.push(hi("premarked-ends-slice-mark-vs-mark", vec![62, 65], vec![vec![SliceMark(60, 2, 4)], vec![SetBit(63)]], None));
+    v.push(h("end-markers-vs-range-mark", vec![vec![SetBit(62)], vec![SetBit(66)], vec![SetRange(62, 5)]], None));
+    v.push(h("range-reset-middle-range-again", vec![vec![SetRange(62, 5), ResetRange(63, 3), SetRange(62, 5)], vec![SetBit(0)]], None));
     // the same page marked again after a fetch-and-clear (histories on one page)
     v.push(h("remark-vs-harvest", vec![vec![SetRange(70, 1), SetRange(70, 1)], vec![Harvest]], None));
     v.push(h("remark-set-bit-vs-harvest", vec![vec![SetBit(70), SetBit(70)], vec![Harvest]], None));
